@@ -1,8 +1,10 @@
-/- Driver ops for Sudoku.  Ops: sudoku.step, sudoku.state, sudoku.judge, sudoku.instance -/
+/- Driver ops for Sudoku.  Ops: sudoku.step, sudoku.state, sudoku.judge, sudoku.instance, sudoku.bounds, sudoku.spec -/
 import JumanjiModel.Bridge.Json
 import JumanjiModel.Env.Sudoku.Model
 import JumanjiModel.Env.Sudoku.Bounds
 import JumanjiModel.Bridge.PuzzleBounds
+import JumanjiModel.Bridge.Spec
+import JumanjiModel.Env.Sudoku.SpecValid
 open Lean Jb
 
 namespace Jb.Sudoku
@@ -18,6 +20,8 @@ def jState (s : State) : Json := jObj [("board", jIntGrid s.board), ("action_mas
 def jObs (o : Obs) : Json := jObj [("board", jIntGrid o.board), ("action_mask", jMask o.mask)]
 def getObs (j : Json) : Except String Obs := do
   pure { board := ← fIntGrid j "board", mask := ← getMask (← field j "action_mask") }
+
+def jNValue (v : Sp.NValue) : Json := jList (fun (e : String × Sp.Arr) => jObj [("key", jStr e.1), ("value", SpecOps.jArr e.2)]) v
 
 def getAction (j : Json) : Except String (Int × Int × Int) := do
   match ← getList getInt j with
@@ -46,7 +50,14 @@ def opState : Op := fun j => do
               ("feasible", jBool (decide (Feasible s.board))),
               ("solution", jBool (decide (IsSolution s.board) && isSolved s.board)),
               ("cached", jBool (decide (CachedOK s))),
-              ("empty_cells", jNat (emptyCells s.board))])
+              ("empty_cells", jNat (emptyCells s.board)),
+              -- wave 4 (C01 membership): the timestep the model's `reset` builds for this board, the L1 observation of the
+              -- state (`Observation(board, action_mask)` copies both fields) as spec-level arrays, `obsSpec.valid` of it, the
+              -- invariant of the membership theorems
+              ("reset_ts", jTimeStep jObs (reset s.board).2),
+              ("nvalue", jNValue (toNValue { board := s.board, mask := s.mask })),
+              ("obs_in_spec", jBool (obsSpec.valid (toNValue { board := s.board, mask := s.mask }))),
+              ("spec_inv", jBool (decide (SpecInv s)))])
 
 /-- {cfg, state, action, next, ts} → {illegal_ok}: an illegal move ends the episode with reward 0
     (null when the move is legal, or when the state has no legal move left = the episode is over) -/
@@ -69,14 +80,24 @@ def opInstance : Op := fun j => do
               ("mask_is_legal_table", jBool (decide (CachedOK s))),
               ("has_empty_cell", jBool (emptyCells s.board > 0)),
               -- the state is the model's transliterated `reset` of its board (Props.C12.sudoku_reset_obs_faithful)
-              ("reset_matches_model", jBool (decide ((reset s.board).1 = s)))])
+              ("reset_matches_model", jBool (decide ((reset s.board).1 = s))),
+              -- wave 4: the invariant of the C01 membership theorems and membership of the reset observation
+              ("spec_inv", jBool (decide (SpecInv s))),
+              ("reset_obs_in_spec", jBool (obsSpec.valid (toNValue (reset s.board).2.obs)))])
 
 /-- C01 bounds op: {"cfg": {}} → the proved interval of every observation leaf -/
 def opBounds : Op := fun _ => do
   pure (jBoundsTable obsBounds)
 
+/-- {cfg} → the model's `obsSpec` (both leaves, incl. the 729-entry `action_mask` leaf that is not in Gen/Specs.lean),
+    `actionSpec`, reward and discount spec in the `speclib.leaf_json` layout, and `generate_value()` of the action spec -/
+def opSpec : Op := fun _ => do
+  pure (jObj [("observation_spec", SpecOps.jNested obsSpec), ("action_spec", SpecOps.jLeaf actionSpec),
+              ("reward_spec", SpecOps.jLeaf PzS.rewardSpec), ("discount_spec", SpecOps.jLeaf PzS.discountSpec),
+              ("action_spec_wf", jBool actionSpec.WF), ("generate_value", SpecOps.jArr actionSpec.generate)])
+
 def ops : List (String × Op) :=
-  [("sudoku.step", opStep), ("sudoku.state", opState), ("sudoku.judge", opJudge),
+  [("sudoku.spec", opSpec), ("sudoku.step", opStep), ("sudoku.state", opState), ("sudoku.judge", opJudge),
    ("sudoku.instance", opInstance),
    ("sudoku.bounds", opBounds)]
 end Jb.Sudoku
